@@ -3,6 +3,7 @@ from common import COMMON_ASSUME
 _CODECS = ['delta', 'for', 'pfor', 'group', 'dict', 'rle', 'elias', 'bp128']
 
 PROP = dict(
+    technique='property-based testing: round-trip oracle (the input array is the oracle) on exact-size buffers under ASan with generated buffer placement; libFuzzer in the thorough tier',
     harness=['c02_arrays.c', 'vf_arr.c'],
     level_text=('generated-input search: every integer-array codec (delta '
                 'signed/unsigned, FOR plain/batch, PFOR at 90/95/99, group, '
